@@ -55,6 +55,9 @@ if _os.path.exists(_os.path.join(_os.path.dirname(_os.path.dirname(_os.path.dirn
 if _os.path.exists(_os.path.join(_os.path.dirname(_os.path.dirname(_os.path.dirname(_os.path.abspath(__file__)))),
                                  "lean", "WV", "Props", "PyIRDil2_C15.lean")):
     PROP_MODULES.append("WV.Props.PyIRDil2_C15")
+if _os.path.exists(_os.path.join(_os.path.dirname(_os.path.dirname(_os.path.dirname(_os.path.abspath(__file__)))),
+                                 "lean", "WV", "Props", "PyIRDil2_C15b.lean")):
+    PROP_MODULES.append("WV.Props.PyIRDil2_C15b")      # needs tools/extract.py::extract_pyir_dil2 (WV.Gen.PyIRDil2)
 TRUSTED = [
     "producers are ids in the model; that Outbound.resumeProducing's loop ends on `p is None` and not on the truth value "
     "of a producer object is pinned from the source (resume_loop_ends_only_on_none) and the witness with a falsy "
